@@ -25,7 +25,11 @@ def main():
         patch = os.path.join(d, "patch.diff")
         if not os.path.exists(patch):
             continue
-        prop = json.load(open(os.path.join(d, "meta.json"))).get("property", sid[:3])
+        meta = json.load(open(os.path.join(d, "meta.json")))
+        if meta.get("obsolete"):
+            print(f"{sid:6} skipped (obsolete: {meta['obsolete'][:80]}...)", flush=True)
+            continue
+        prop = meta.get("property", sid[:3])
         t0 = time.time()
         try:
             a = subprocess.run(["git", "-C", REPO, "apply", patch], capture_output=True, text=True)
